@@ -44,6 +44,8 @@ def gen_cases(rng, n, ops=DENSE_OPS):
 
 
 def main():
+    import astlib
+    astlib.AUTO_FUNCS = 0.2       # sqrt exp ln log pow at exact points in a fifth of the generated formulas
     rep = core.Report("C04")
     quick = core.tier() == "quick"
     rng = random.Random(core.seed() * 7919 + 4)
